@@ -610,14 +610,30 @@ impl FormatSpec {
     {
         self.validate_format(FormatType::String)?;
         match self.format_type {
-            Some(FormatType::String) | None => self
-                .format_sign_and_align(s, "", FormatAlign::Left)
-                .map(|mut value| {
-                    if let Some(precision) = self.precision {
-                        value.truncate(precision);
+            Some(FormatType::String) | None => match self.precision {
+                // the precision truncates the value (by characters) before it is padded
+                Some(precision) => {
+                    struct Truncated<'a>(&'a str, usize);
+                    impl CharLen for Truncated<'_> {
+                        fn char_len(&self) -> usize {
+                            self.1
+                        }
                     }
-                    value
-                }),
+                    impl Deref for Truncated<'_> {
+                        type Target = str;
+                        fn deref(&self) -> &Self::Target {
+                            self.0
+                        }
+                    }
+                    let end = s
+                        .char_indices()
+                        .nth(precision)
+                        .map_or(s.len(), |(index, _)| index);
+                    let truncated = Truncated(&s[..end], cmp::min(precision, s.char_len()));
+                    self.format_sign_and_align(&truncated, "", FormatAlign::Left)
+                }
+                None => self.format_sign_and_align(s, "", FormatAlign::Left),
+            },
             _ => {
                 let ch = char::from(self.format_type.as_ref().unwrap());
                 Err(FormatSpecError::UnknownFormatCode(ch, "str"))
